@@ -406,8 +406,22 @@ pub fn exec_oracle(kind: &str, fields: &[&str]) -> String {
         }
         "S_C16E" => {
             let def = unescape(fields[0]);
+            // (second field, when given: the parameter the error has to name)
+            let key = fields.get(1).map(|k| unescape(k)).unwrap_or_default();
             match Minimal::default().op(&def) {
-                Ok(_) => format!("oracle FAIL {def} was accepted although one of its values is not a number"),
+                Ok(_) => format!("oracle FAIL {def} was accepted although one of its values is not of the parameter's type"),
+                Err(e) if !key.is_empty() => {
+                    let named = match &e {
+                        Error::BadParam(k, _) => k == &key,
+                        Error::MissingParam(k) => k == &key,
+                        other => format!("{other}").contains(&key),
+                    };
+                    if named {
+                        "oracle pass".to_string()
+                    } else {
+                        format!("oracle FAIL {def} is refused with an error that does not name the parameter {key}: {e}")
+                    }
+                }
                 Err(_) => "oracle pass".to_string(),
             }
         }
